@@ -100,7 +100,7 @@ def r21(ctx: Ctx) -> RuleReport:
         elt_ok = (isinstance(comp.elt, ast.Name) and comp.elt.id == loc_t) or (
             isinstance(comp.elt, ast.Call) and len(comp.elt.args) == 1 and isinstance(comp.elt.args[0], ast.Starred)
             and isinstance(comp.elt.args[0].value, ast.Name) and comp.elt.args[0].value.id == loc_t and not comp.elt.keywords)
-        rep.add(f'{fi.fq}: element is the triple itself', fi.loc(comp), 'ok' if elt_ok else 'violation',
+        rep.add(f'{fi.fq}: element is the triple itself', fi.loc(comp), 'ok' if elt_ok else 'undecided',
                 '' if elt_ok else f'returns {norm(comp.elt)} per triple')
         subst: Dict[str, object] = {loc_t: ast.Name(id=tv, ctx=ast.Load())}
         # single-definition locals (variables = self.variables())
@@ -123,7 +123,7 @@ def r21(ctx: Ctx) -> RuleReport:
             # with all-literal arguments exactly one branch of _filter_triples is live
             raise AnalysisError(f'{fi.fq}: _filter_triples branch is not decided by the literal arguments')
         cond, fpred, source, gen = live[0]
-        rep.add(f'{fi.fq}: ranges over self.triples', fi.loc(comp), 'ok' if norm(source) == 'self.triples' else 'violation',
+        rep.add(f'{fi.fq}: ranges over self.triples', fi.loc(comp), 'ok' if norm(source) == 'self.triples' else 'undecided',
                 '' if norm(source) == 'self.triples' else f'iterates {norm(source)}')
         preds[name] = bn.mk_and([fpred, own])
         rep.info(f'{fi.fq}: predicate', fi.loc(comp), bn.show(preds[name]))
@@ -144,7 +144,7 @@ def r21(ctx: Ctx) -> RuleReport:
     concept = _concept_atom(preds['instances'])
     want_edges = bn.mk_and([bn.mk_not(concept), ('atom', 't[2] in self.variables()')]) if concept else None
     if want_edges is None:
-        rep.violation('Graph.instances selects exactly the concept-role triples', repo.func(G, 'Graph.instances').loc(),
+        rep.undecided('Graph.instances selects exactly the concept-role triples', repo.func(G, 'Graph.instances').loc(),
                       f'predicate is {bn.show(preds["instances"])}')
     else:
         rep.ok('Graph.instances selects exactly the concept-role triples', repo.func(G, 'Graph.instances').loc(),
@@ -164,7 +164,7 @@ def r21(ctx: Ctx) -> RuleReport:
             want = bn.mk_or([('atom', f'{p} is None'), ('atom', ' == '.join(sorted([p, f't[{i}]'])))])
             conj = fpred[1] if isinstance(fpred, tuple) and fpred[0] == 'and' else [fpred]
             okc = any(bn.equivalent(c, want) is None for c in conj)
-            rep.add(f'Graph._filter_triples: filter {p} compares slot {i}', ft.loc(gen.iter), 'ok' if okc else 'violation',
+            rep.add(f'Graph._filter_triples: filter {p} compares slot {i}', ft.loc(gen.iter), 'ok' if okc else 'undecided',
                     '' if okc else f'no conjunct equivalent to `{p} is None or {p} == t[{i}]` in {bn.show(fpred)}')
     # public methods pass their parameters in position
     for name in ('edges', 'attributes'):
@@ -173,7 +173,7 @@ def r21(ctx: Ctx) -> RuleReport:
         src = single_def(ctx, fi, comp.generators[0].iter)
         got = [norm(a) for a in src.args]
         want = fi.positional[1:4]
-        rep.add(f'{fi.fq}: passes (source, role, target) through in order', fi.loc(src), 'ok' if got == want else 'violation',
+        rep.add(f'{fi.fq}: passes (source, role, target) through in order', fi.loc(src), 'ok' if got == want else 'undecided',
                 '' if got == want else f'passes {got}')
     return rep
 
@@ -199,7 +199,7 @@ def r22(ctx: Ctx) -> RuleReport:
               (f'{p} not in self.variables()', False)}
     for nd in stores:
         rep.add(f'{fi.fq}: stores the value passed', fi.loc(nd.ast),
-                'ok' if isinstance(nd.ast.value, ast.Name) and nd.ast.value.id == p else 'violation', norm(nd.ast))
+                'ok' if isinstance(nd.ast.value, ast.Name) and nd.ast.value.id == p else 'undecided', norm(nd.ast))
         # may-analysis: can the store be reached along edges none of which establishes an accepting fact?
         seen = set()
         stack = [cfg.entry]
@@ -221,7 +221,7 @@ def r22(ctx: Ctx) -> RuleReport:
                 'violation' if reached else 'ok',
                 'the store is reachable without either test having succeeded' if reached else '')
     raises = [n for n in walk_local(fi.node) if isinstance(n, ast.Raise) and isinstance(n.exc, ast.Call)]
-    rep.add(f'{fi.fq}: refusal raises GraphError', fi.loc(), 'ok' if any(norm(r.exc.func) == 'GraphError' for r in raises) else 'violation')
+    rep.add(f'{fi.fq}: refusal raises GraphError', fi.loc(), 'ok' if any(norm(r.exc.func) == 'GraphError' for r in raises) else 'undecided')
     # the variables() used is sources + explicit top
     vf = ctx.repo.func(G, 'Graph.variables')
     comp = None
@@ -231,7 +231,7 @@ def r22(ctx: Ctx) -> RuleReport:
     okv = comp is not None and isinstance(comp.generators[0].target, ast.Tuple) and len(comp.generators[0].target.elts) == 3 \
         and isinstance(comp.elt, ast.Name) and isinstance(comp.generators[0].target.elts[0], ast.Name) \
         and comp.elt.id == comp.generators[0].target.elts[0].id and not comp.generators[0].ifs
-    rep.add('Graph.variables: the sources of all triples', vf.loc(), 'ok' if okv else 'violation',
+    rep.add('Graph.variables: the sources of all triples', vf.loc(), 'ok' if okv else 'undecided',
             '' if okv else 'the variable set is not {source for every triple}')
     return rep
 
@@ -252,10 +252,10 @@ def r23top(ctx: Ctx) -> RuleReport:
             g1 = (f'{tname} is None', True) in facts
             g2 = any(f in facts for f in [('len(self.triples) > 0', True), ('self.triples', True), ('len(self.triples) == 0', False)])
             rep.add(f'{fi.fq}: implicit top only when no explicit top and triples exist', fi.loc(n),
-                    'ok' if g1 and g2 else 'violation', '' if g1 and g2 else f'facts {sorted(facts)}')
+                    'ok' if g1 and g2 else 'undecided', '' if g1 and g2 else f'facts {sorted(facts)}')
             src = single_def(ctx, fi, ast.Name(id=tname, ctx=ast.Load()))
     if not found:
-        rep.violation(f'{fi.fq}: implicit top is self.triples[0][0]', fi.loc(), 'no such fallback')
+        rep.undecided(f'{fi.fq}: implicit top is self.triples[0][0]', fi.loc(), 'no such fallback')
     else:
         rep.ok(f'{fi.fq}: implicit top is self.triples[0][0]', fi.loc())
     return rep
@@ -290,7 +290,7 @@ def r39(ctx: Ctx) -> RuleReport:
                 norm(a.generators[0].iter) == f'{ior.positional[1]}.triples' and isinstance(a.elt, ast.Name) \
                 and isinstance(a.generators[0].target, ast.Name) and a.elt.id == a.generators[0].target.id:
             good = True
-    rep.add(f'{ior.fq}: new triples are appended in the order of other.triples', ior.loc(), 'ok' if good else 'violation',
+    rep.add(f'{ior.fq}: new triples are appended in the order of other.triples', ior.loc(), 'ok' if good else 'undecided',
             '' if good else 'self.triples is not extended by a filter over other.triples')
     isub = ctx.repo.func(G, 'Graph.__isub__')
     good = False
@@ -300,7 +300,7 @@ def r39(ctx: Ctx) -> RuleReport:
             if isinstance(v, ast.ListComp) and len(v.generators) == 1 and norm(v.generators[0].iter) == 'self.triples' \
                     and isinstance(v.elt, ast.Name) and v.elt.id == v.generators[0].target.id:
                 good = True
-    rep.add(f'{isub.fq}: remaining triples keep their order', isub.loc(), 'ok' if good else 'violation')
+    rep.add(f'{isub.fq}: remaining triples keep their order', isub.loc(), 'ok' if good else 'undecided')
     return rep
 
 
